@@ -58,6 +58,24 @@ theorem body_terminates (body : List Tok) : (runP Γ Δ (fuelFor body.length) (.
     (by simp only [bound, rankK, sizeS, fuelFor, G.size]; omega)
     (by decide) (by decide) (by decide) (Nat.le_refl _) (fun h => by cases h)
 
+/-- **C07, second clause (T4)**: within a method body every memoised sub-parser is evaluated at
+    most once per token position — the log of evaluations `(cache, remaining length)` of the
+    memoising run of ANY body has no duplicate, and every logged evaluation ended in the cache.
+    (Needs that failures are cached too: `gold_allErrs*`, kernel-checked; the pinned
+    `parse_method_call` violated exactly this.) -/
+theorem body_evaluated_once (body : List Tok) :
+    ((runM Γ Δ (fuelFor body.length) (.ref nBody) body {}).2.2.evals).Nodup ∧
+    ∀ p ∈ (runM Γ Δ (fuelFor body.length) (.ref nBody) body {}).2.2.evals,
+      Cached (runM Γ Δ (fuelFor body.length) (.ref nBody) body {}).2.2.memo p := by
+  have po := runM_once gold_wf gold_scoped gold_allErrsΓ gold_allErrsΔ body (fuelFor body.length) (.ref nBody) body
+    rankK false {} [] [] (by decide) (by decide) (List.suffix_refl _) (Coh.nil Γ Δ _ _) (body_terminates body)
+    (by decide) (by decide) (Nat.le_refl _) (fun h => by cases h)
+    ⟨List.nodup_nil, fun p hp => by cases hp⟩ (fun p hp => by cases hp)
+  refine ⟨po.1.1, fun p hp => ?_⟩
+  rcases po.1.2 p hp with h | h
+  · exact h
+  · cases h
+
 /-- the cache tables are length-keyed, so what makes them sound is that *inside a slice every
     parser input is a suffix of the slice* (T1); the kernel-checked scoping facts say that no
     memoised parser runs outside a slice -/
